@@ -276,7 +276,11 @@ func cliCutCase(c *core.Ctx) {
 	case r < 20:
 		lflag = "v:" + badLFlags[c.G.Intn(len(badLFlags))]
 	default:
-		sp := spellings(drawThreshold(c.G, first, o))
+		thr := drawThreshold(c.G, first, o)
+		if o.LenDenom != 8 {
+			thr = float64(c.G.Intn(40)) / 8 // decimal lengths: a threshold the model reads exactly from its spelling
+		}
+		sp := spellings(thr)
 		lflag = "v:" + sp[c.G.Intn(len(sp))]
 	}
 	outmode := []string{"stdout", "file", "dash", "stdin"}[c.G.Intn(4)]
